@@ -624,6 +624,27 @@ namespace bloch::runtime {
         m_gcCv.notify_all();
         if (m_gcThread.joinable())
             m_gcThread.join();
+        // Object deleters call back into this evaluator and read their RuntimeClass, so drop
+        // every remaining reference while the class table is still alive (members are
+        // destroyed in reverse declaration order, i.e. the class table before the scope
+        // stack). User destructors are not run during teardown: their output could no
+        // longer be flushed and an error raised by one could not be reported.
+        try {
+            {
+                std::lock_guard<std::mutex> lock(m_heapMutex);
+                for (auto& w : m_heap) {
+                    if (auto obj = w.lock())
+                        obj->skipDestructor = true;
+                }
+            }
+            m_returnValue = {};
+            while (!m_env.empty()) m_env.pop_back();
+            for (auto& kv : m_classTable) {
+                if (kv.second)
+                    kv.second->staticStorage.clear();
+            }
+        } catch (...) {
+        }
     }
 
     Value RuntimeEvaluator::lookup(const std::string& name) {
